@@ -633,7 +633,7 @@ func (s *sim) sweepPhase(phase string, paths []string, specs []sigSpec, vec *[]b
 			}
 			r.Class("announce-refused-at/" + st + "/" + res)
 			r.Case(fmt.Sprintf("%s/N=%d/%s/announce-rep/%s/%s", out.region, n, path, st, res))
-			if !out.accepted && announced != nil && s.diverge == "" {
+			if !out.accepted && announced != nil && (s.diverge == "" || s.diverge == "set-mismatch") {
 				fo := s.call(path, sigSpec{"announced-set", announced, good(announced...)}, nil, "", "announce-rep/"+st+"+announced-set-signs",
 					[]string{phase, path, "announce-rep/" + st, "then plain signed by the announced set"})
 				atomic.AddInt64(&nCalls, 1)
@@ -733,6 +733,9 @@ var handoverEventsAll = []string{
 
 var handoverEvents []string
 
+// from depth 2 on only the signature-stage refusals (nosig, wronghash) of the announcing events are kept
+var handoverEventsDeep []string
+
 func initEvents(thorough bool) {
 	var all []string
 	for _, e := range handoverEventsAll {
@@ -757,6 +760,9 @@ func initEvents(thorough bool) {
 			e = strings.TrimSuffix(e, "(t)")
 		}
 		handoverEvents = append(handoverEvents, e)
+		if i := strings.Index(e, ":rep/"); i < 0 || !strings.Contains("badtime under foreign corrupt badroot badstate", e[i+5:]) {
+			handoverEventsDeep = append(handoverEventsDeep, e)
+		}
 	}
 }
 
@@ -857,7 +863,7 @@ func (s *sim) apply(evn string, trace []string) bool {
 	if out.accepted && (kind == "add" || kind == "rep") {
 		s.fresh++
 	}
-	if !out.accepted && newSet != nil && kind != "rem" && s.diverge == "" {
+	if !out.accepted && newSet != nil && kind != "rem" && (s.diverge == "" || s.diverge == "set-mismatch") {
 		// follow-up (not for "rem": a subset of the set in force signing is an ordinary block): the set announced by the REFUSED header/block signs the next one. It is judged against
 		// the set really in force (for add/rep it lists a key foreign to it and must be refused).
 		fo := s.call(pc, sigSpec{"announced-set", newSet, good(newSet...)}, nil, "", kind+"/"+who+"+announced-set-signs", append(append([]string{}, trace...), "(then "+evn[:2]+"plain signed by the announced set)"))
@@ -909,6 +915,9 @@ func (w *hworld) bfs(depth, workers int) mc.Stats {
 		Events: func(s hst, d int) []string {
 			if s.dead {
 				return nil
+			}
+			if d >= 2 {
+				return handoverEventsDeep
 			}
 			return handoverEvents
 		},
@@ -1013,7 +1022,11 @@ func main() {
 				if (!main && b == 7) || (main && b == 4) {
 					d = depth // 7 -> 8 crosses the legacy threshold 1 -> 2; 4 -> 5 crosses the new-rule threshold 3 -> 4
 				}
-				st := w.bfs(d, 6)
+				workers := 4
+				if d == depth {
+					workers = 12
+				}
+				st := w.bfs(d, workers)
 				mu.Lock()
 				states += st.States
 				transitions += st.Transitions
